@@ -8,3 +8,10 @@ package v1
 //@   returns err
 //@   ensures valid: err == nil ==> paramsOK(p)
 //@ end
+
+// Genesis validation reads no state; InitGenesis relies on nothing it establishes (assumed: it has no effect).
+//@ func ValidateGenesis
+//@   property C12
+//@   trusted
+//@   returns err
+//@ end
